@@ -24,10 +24,11 @@ HelloFrames == {"hello.ready.ge30.absent", "hello.pending.ge30.absent", "hello.p
 HasRep(ob, S) == \E i \in 1..Len(ob.ev) : ob.ev[i].k = "rep" /\ ob.ev[i].v = S
 
 \* trace-level facts the pair judgement needs, gathered while walking the steps
-Flags0 == [approvedPending |-> FALSE, cancelled |-> FALSE, faults |-> FALSE, userClosed |-> FALSE, lateHello |-> FALSE]
+Flags0 == [approvedPending |-> FALSE, approvedAny |-> FALSE, cancelled |-> FALSE, faults |-> FALSE, userClosed |-> FALSE, lateHello |-> FALSE]
 FlagsAfter(f, s, accE) ==
-    [ approvedPending |-> f.approvedPending \/ (s.a.a = "Approve" /\ HasRep(s.ob, "ReadyInit")),
-      cancelled       |-> f.cancelled \/ s.a.a = "Cancel",
+    [ approvedPending |-> f.approvedPending \/ (s.a.a = "Approve" /\ accE.last \in {"InitStart", "ServerWait", "PendingListen"}),
+      approvedAny     |-> f.approvedAny \/ s.a.a = "Approve",
+      cancelled       |-> f.cancelled \/ (s.a.a = "Cancel" /\ HasRep(s.ob, "Abort")),
       faults          |-> f.faults \/ s.a.a \in {"ArmWriteFailure", "WsFail"},
       userClosed      |-> f.userClosed \/ s.a.a = "Close",
       lateHello       |-> f.lateHello \/ (s.a.a = "Deliver" /\ s.a.m \in HelloFrames /\ accE.last \in PostHello) ]
@@ -49,6 +50,7 @@ JudgeTrace(t) ==
         pb  == IF t.cfg.pair /\ t.pairEnd.quiesced
                THEN LET q == [ timely |-> t.cfg.timely,
                                trustGiven |-> ~f.flags.cancelled /\ (t.cfg.paired \/ t.cfg.auto \/ f.flags.approvedPending),
+                               trustAny |-> t.cfg.paired \/ t.cfg.auto \/ f.flags.approvedAny,
                                idsCompatible |-> (t.cfg.stored \in {"none", "A"}) /\ (t.cfg.storedC \in {"none", "B"}),
                                faultFree |-> ~f.flags.faults, userClosed |-> f.flags.userClosed ]
                     IN  {[i |-> Len(t.steps), key |-> k] : k \in JudgePair(PairOb(t.pairEnd.c, f.accs["c"]), PairOb(t.pairEnd.s, f.accs["s"]), q)}
